@@ -68,7 +68,7 @@ pub fn swarm(seed: u64, class: Class, max_steps: usize) -> Swarm {
         //            cach unc hand wmeta wenv renv cyc sbom execd file mkdir sym impl spec top rest
         Class::C01 => [30, 8, 2, 10, 8, 3, 1, 8, 6, 10, 2, 0, 2, 0, 0, 12],
         Class::C02 => [4, 1, 40, 5, 3, 2, 1, 3, 2, 6, 2, 0, 3, 0, 0, 14],
-        Class::C03 => [2, 1, 0, 0, 40, 25, 5, 0, 0, 2, 0, 0, 0, 20, 0, 2],
+        Class::C03 => [2, 1, 8, 0, 40, 25, 5, 0, 0, 2, 0, 0, 0, 14, 0, 4],
         Class::C10 => [5, 1, 8, 0, 10, 25, 15, 0, 0, 3, 2, 0, 35, 0, 0, 3],
         Class::C11 => [12, 10, 10, 1, 2, 0, 0, 2, 2, 10, 20, 25, 2, 0, 6, 5],
         Class::Mixed => [12, 5, 12, 6, 8, 6, 3, 6, 6, 8, 4, 3, 5, 0, 0, 8],
@@ -516,6 +516,15 @@ impl Gen<'_> {
         let path = gen_rel_path(r, 4);
         let other = (layer + 1) % model.layers.len();
         let sibling = crate::snap::join(b"layers", model.layers[other].as_bytes());
+        if r.chance(1, 6) {
+            // a hard link to a file outside the layer: same inode, so a chmod shows outside
+            let to = *r.pick(&[&b"outside/canary/file_ro"[..], b"outside/canary/file_a", b"outside/target_dir/keep.txt"]);
+            return vec![Op::HardLink {
+                layer,
+                path,
+                to: to.to_vec(),
+            }];
+        }
         let target = match r.below(10) {
             0 => LinkTarget::Abs(b"outside/canary/file_a".to_vec()),
             1 => LinkTarget::Abs(b"outside/canary/dir_w".to_vec()),
